@@ -32,6 +32,7 @@ type sim struct {
 	nodes   []*simNode
 	nVals   int
 	byz     []*byzVal // Byzantine validators (simulator-held keys)
+	bz      byzState
 	powers  []int64   // genesis powers, validators 0..nVals-1 then byz
 
 	cur          *simNode // node being stimulated (for the global hooks)
@@ -312,18 +313,23 @@ type item struct {
 	typ  int // 1 prevote 2 precommit
 	val  int // validator index
 	part int
+	id   string // Byzantine item id
 }
 
 func (it item) key() string {
-	return fmt.Sprintf("%s/%d>%d/%d/%d/%d/%d/%d", it.kind, it.from, it.to, it.h, it.r, it.typ, it.val, it.part)
+	return fmt.Sprintf("%s/%d>%d/%d/%d/%d/%d/%d/%s", it.kind, it.from, it.to, it.h, it.r, it.typ, it.val, it.part, it.id)
 }
 
 func (it item) op() simcore.Op {
-	return simcore.Op{"a": "deliver", "k": it.kind, "from": it.from, "to": it.to, "h": it.h, "r": it.r, "t": it.typ, "v": it.val, "p": it.part}
+	op := simcore.Op{"a": "deliver", "k": it.kind, "from": it.from, "to": it.to, "h": it.h, "r": it.r, "t": it.typ, "v": it.val, "p": it.part}
+	if it.id != "" {
+		op["id"] = it.id
+	}
+	return op
 }
 
 func itemFromOp(op simcore.Op) item {
-	return item{kind: op.Str("k"), from: op.Int("from"), to: op.Int("to"), h: op.Int64("h"), r: int32(op.Int("r")), typ: op.Int("t"), val: op.Int("v"), part: op.Int("p")}
+	return item{kind: op.Str("k"), from: op.Int("from"), to: op.Int("to"), h: op.Int64("h"), r: int32(op.Int("r")), typ: op.Int("t"), val: op.Int("v"), part: op.Int("p"), id: op.Str("id")}
 }
 
 func stamp(rs *cstypes.RoundState) string {
